@@ -188,6 +188,7 @@ CATALOGUE = [
     ("ttpen-cubic-offcurves-as-quadratic", "pens/ttGlyphPen.py", "        for pt in points[:-1]:\n            self._addPoint(pt, flagCubic)", "        for pt in points[:-1]:\n            self._addPoint(pt, 0)", "C14", "TTGlyphPenSimpleGlyph", "alarm"),
     ("trim-header-only-glyph", "ttLib/tables/_g_l_y_f.py", "        if numContours == 0:\n            # Some fonts have glyphs with a header and numberOfContours 0 (see\n            # expand()): there is no outline data whose end could be located.\n            return\n", "", "C07", "GlyphTrim", "alarm"),
     ("glyf-odd-padding-without-size-check", "ttLib/tables/_g_l_y_f.py", "            if indices and currentLocation + len(indices) < 0x20000:", "            if indices:", "C04", "GlyfTableCompile", "alarm"),
+    ("woff2-bbox-bit-order", "ttLib/woff2.py", "        self.bboxBitmap[glyphID >> 3] |= 0x80 >> (glyphID & 7)", "        self.bboxBitmap[glyphID >> 3] |= 0x01 << (glyphID & 7)", "C04", "WOFF2BBoxCodec", "alarm"),
     ("closure-memo-subset-spelling", "subset/__init__.py", "    if cur_glyphs.issubset(covered):\n        return\n    covered.update(cur_glyphs)\n\n    for st in self.SubTable:", "    if cur_glyphs <= covered:\n        return\n    covered.update(cur_glyphs)\n\n    for st in self.SubTable:", "C07", "LookupClosureMemo", "green"),
 ]
 
